@@ -14,6 +14,7 @@ def run(ctx):
                                 dict(module_rel="list/MichaelListMC.tla", cfg_rel="list/MichaelList_bad_norecheck.cfg", workers=4, expect_violation="LinOK"),
                                 dict(module_rel="list/LazyListMC.tla", cfg_rel="list/LazyList_q.cfg" if ctx.quick() else "list/LazyList_t.cfg", workers=6, timeout=3000),
                                 dict(module_rel="list/LazyListMC.tla", cfg_rel="list/LazyList_bad_novalidate.cfg", workers=2, expect_violation="StructureOK"),
+                                dict(module_rel="list/LazyListMC.tla", cfg_rel="list/LazyList_bad_tailskip.cfg", workers=2, expect_violation="StructureOK"),      # seeded change C13b
                                 # IterList.tla (IterableList: permanent nodes, marked data pointers, re-use of empty nodes, find_prev re-check); refuted: seeded change C13
                                 dict(module_rel="list/IterListMC.tla", cfg_rel="list/IterList_q.cfg", workers=2),
                                 dict(module_rel="list/IterListMC.tla", cfg_rel="list/IterList_q2d.cfg", workers=2),
